@@ -72,13 +72,49 @@ Definition gated_eras : list string := ["conway"; "dijkstra"]%string.
 Definition bad_eras : list string :=
   filter (fun era => negb (list_eqb String.eqb (withdrawal_rules era) [n_withdrawals])) gated_eras.
 
-(* correspondence: (era, versioned, pv, is_valid, cap, withdrawals, observed result) *)
-Definition case := (string * bool * N * bool * bool * list wd * result)%type.
+(* ---- common.VerifyTransaction over the era's whole rule list ---- *)
+
+(* parts of a transaction no withdrawal rule reads (numbers of inputs, reference
+   inputs, collateral inputs, outputs, certificates); carried so that the model
+   states that the verdict does not depend on them *)
+Record shape := mk_shape { s_inputs : N; s_refs : N; s_coll : N; s_outputs : N; s_certs : N }.
+
+(* what a rule receives: the transaction and parameters (vt) and the ledger state.
+   Of the ledger state the withdrawal rule uses only whether it offers the
+   DRepDelegationState capability (its answers are carried by the wd entries). *)
+Record vtx := mk_vtx { v_shape : shape; v_versioned : bool; v_pv : N; v_valid : bool; v_ws : list wd }.
+Definition lstate := bool.
+Definition rule := vtx -> lstate -> result.
+
+(* for i, rule := range validationRules { if err := rule(tx, slot, ledgerState, protocolParams); err != nil { return ... } }
+   every rule is applied to the SAME ledger state the caller passed *)
+Fixpoint verify_tx (rules : list rule) (t : vtx) (ls : lstate) : result :=
+  match rules with
+  | [] => ROk
+  | r :: rest => match r t ls with ROk => verify_tx rest t ls | e => e end
+  end.
+
+Definition withdrawals_rule : rule :=
+  fun t ls => conway_withdrawals (v_versioned t) (v_pv t) (v_valid t) ls (v_ws t).
+
+(* meaning of one entry of a generated rule list; `other` = all rules that are not the withdrawal rule *)
+Definition rule_sem (other : string -> rule) (name : string) : rule :=
+  if String.eqb name n_withdrawals then withdrawals_rule else other name.
+Definition era_rule_list (other : string -> rule) (era : string) : list rule :=
+  match assoc era era_rules with Some rs => map (rule_sem other) rs | None => [] end.
+Definition others_pass : string -> rule := fun _ _ _ => ROk.
+
+(* correspondence: (era, shape, versioned, pv, is_valid, cap, withdrawals,
+   observed result of the direct rule call, observed result through
+   VerifyTransaction over the whole era list with the other rules' verdicts discarded) *)
+Definition case := (string * shape * bool * N * bool * bool * list wd * result * result)%type.
 Definition check_case (c : case) : bool :=
   match c with
-  | (era, versioned, pv, is_valid, cap, ws, obs) =>
+  | (era, sh, versioned, pv, is_valid, cap, ws, obs_direct, obs_verify) =>
+    let t := mk_vtx sh versioned pv is_valid ws in
     existsb (String.eqb era) gated_eras &&
     list_eqb String.eqb (withdrawal_rules era) [n_withdrawals] &&
-    result_eqb (conway_withdrawals versioned pv is_valid cap ws) obs
+    result_eqb (withdrawals_rule t cap) obs_direct &&
+    result_eqb (verify_tx (era_rule_list others_pass era) t cap) obs_verify
   end.
 Definition mismatches : list case -> list nat := failing check_case.
